@@ -70,6 +70,11 @@ type Method struct {
 	WrapParams int  `json:"wrapParams,omitempty"` // 0 one line; 1 a continuation line after every third parameter; 2 one parameter per line, ")" on a line of its own
 	RichParams bool `json:"richParams,omitempty"` // annotated / nested-generic parameter types (commas inside annotations and type arguments)
 	SameLine   bool `json:"sameLine,omitempty"`   // a one-line getter/setter written on the line of the one-line getter/setter before it
+	// widening r4: a getter/setter (Kind getter: no parameter, returns a value; Kind setter: one
+	// parameter) written like an ordinary method: Body statements around its own statement, Doc,
+	// BraceNext, SplitHead, RichParams as for an ordinary method. Methods of the other kinds may
+	// carry a name that merely starts with get/set/is (see accessorLike).
+	Full bool `json:"full,omitempty"`
 }
 
 type File struct {
@@ -114,6 +119,8 @@ type SweepCase struct {
 	Shapes          bool `json:"shapes,omitempty"`          // boundary classes with wrapped / annotated parameter lists and look-alike method names
 	Varargs         bool `json:"varargs,omitempty"`         // ... and with a variable-arity last parameter
 	InterfaceBodies bool `json:"interfaceBodies,omitempty"` // ... and default methods of interfaces
+	// widening r4
+	Accessors bool `json:"accessors,omitempty"` // boundary classes whose method-level parameters sit on getters/setters and on methods named like accessors
 }
 
 // ---------------------------------------------------------------------------------------
@@ -461,6 +468,9 @@ func (w *jw) method(depth int, m Method, inInterface bool) methodTruth {
 		t.CloseLine = w.next - 1
 		return t
 	case "getter", "setter":
+		if m.Full {
+			break // written like an ordinary method, below
+		}
 		stmt := "return n0;"
 		if m.Kind == "setter" {
 			stmt = "this.n0 = p0;"
@@ -502,6 +512,14 @@ func (w *jw) method(depth int, m Method, inInterface bool) methodTruth {
 		t.DeclLine = w.signature(depth, prefix, params, suffix, m.WrapParams, tail)
 		if m.BraceNext {
 			w.ln(depth, "{")
+		}
+	}
+	if m.Kind == "setter" {
+		// a setter's own statement, ahead of whatever else its body holds
+		if m.RichParams || m.Varargs {
+			w.ln(depth+1, "this.n0 = 1;")
+		} else {
+			w.ln(depth+1, "this.n0 = p0;")
 		}
 	}
 	for _, s := range m.Body {
@@ -712,17 +730,41 @@ func (f finding) String() string {
 
 func isGS(kind string) bool { return kind == "getter" || kind == "setter" }
 
+// accessorLike: the name starts like an accessor's (get..., set..., isX...). For a method of
+// kind getter/setter that is what it is. For a method of another kind (setBounds with six
+// parameters, getKind(int), settle, getaway, isReady) the statement does not say whether it is
+// a "getter/setter": such methods stand only where the class-level findings are the same
+// under both readings (interfaces; classes with at least one method of an ordinary name and
+// fewer than 20 methods that are not getters/setters by kind), which expectedOf verifies.
+func accessorLike(name string) bool {
+	if strings.HasPrefix(name, "get") || strings.HasPrefix(name, "set") {
+		return true
+	}
+	return len(name) > 2 && strings.HasPrefix(name, "is") && name[2] >= 'A' && name[2] <= 'Z'
+}
+
+// prefixLookAlike: starts with get/set without being spelt like an accessor (settle, getaway, set7).
+func prefixLookAlike(name string) bool {
+	if !strings.HasPrefix(name, "get") && !strings.HasPrefix(name, "set") {
+		return false
+	}
+	return len(name) == 3 || !(name[3] >= 'A' && name[3] <= 'Z')
+}
+
 func expectedOf(root string, t fileTruth) []finding {
 	if !t.HasType {
 		return nil
 	}
 	file := filepath.Join(root, filepath.FromSlash(t.Rel))
 	var out []finding
-	normal, gs := 0, 0
+	normal, gs, either := 0, 0, 0
 	for _, m := range t.Methods {
-		if isGS(m.Kind) {
+		switch {
+		case isGS(m.Kind):
 			gs++
-		} else {
+		case accessorLike(m.Name):
+			either++ // a getter/setter under one reading of the statement, an ordinary method under the other
+		default:
 			normal++
 		}
 		line := strconv.Itoa(m.DeclLine)
@@ -745,6 +787,10 @@ func expectedOf(root string, t fileTruth) []finding {
 		}
 	}
 	if !t.Interface {
+		if either > 0 && !(normal >= 1 && normal+either < 20) {
+			// largeClass / dataClass would depend on the reading: the generators never build this
+			panic(fmt.Sprintf("GENERATOR BUG (not a violation): class %s has %d methods whose names start like accessors but are none by kind, next to %d ordinary methods: the class-level findings depend on how the statement's \"getters/setters\" is read", t.Rel, either, normal))
+		}
 		if normal >= 20 {
 			out = append(out, finding{kLargeClass, file, "", normal})
 		}
@@ -1154,7 +1200,51 @@ func classify(c Case, truths []fileTruth, want []finding, mode string) pbt.Verdi
 				nearAny = true
 				labels["S_near_threshold"] = true
 			}
-			vecs = append(vecs, fmt.Sprintf("%s:L%dP%dI%dS%dH%v", m.Kind[:1], l, m.Params, len(m.Ifs), m.Switches, hs))
+			tall := false
+			for _, h := range hs {
+				tall = tall || h >= 4
+			}
+			overOther := m.Params > 5 || len(m.Ifs) >= 8 || m.Switches >= 8 || tall
+			who := m.Kind[:1]
+			switch {
+			case isGS(m.Kind):
+				if l > 30 || overOther {
+					labels["getter_or_setter_over_a_method_threshold"] = true
+				}
+				if near(l, 30) || near(len(m.Ifs), 8) || near(m.Switches, 8) || (len(hs) > 0 && near(hs[0], 4)) {
+					labels["getter_or_setter_near_a_method_threshold"] = true
+				}
+			case accessorLike(m.Name):
+				who += "~" // named like an accessor
+				labels["accessor_named_method_of_another_kind"] = true
+				if t.Interface {
+					labels["accessor_named_method_in_interface"] = true
+				} else {
+					labels["accessor_named_method_in_class"] = true
+				}
+				if overOther {
+					labels["accessor_named_method_over_P_I_S_or_H_threshold"] = true
+					if !t.Interface {
+						labels["accessor_named_method_in_class_over_P_I_S_or_H_threshold"] = true
+					}
+				}
+				if m.Params > 5 {
+					labels["accessor_named_method_long_parameter_list"] = true
+				}
+				if l > 30 {
+					labels["accessor_named_method_long"] = true
+				}
+				if prefixLookAlike(m.Name) {
+					labels["name_with_get_or_set_prefix_not_spelt_as_accessor"] = true
+				}
+				if strings.HasPrefix(m.Name, "is") {
+					labels["is_accessor_named_method"] = true
+				}
+				if m.Kind == "abstract" {
+					labels["accessor_named_abstract_method"] = true
+				}
+			}
+			vecs = append(vecs, fmt.Sprintf("%s:L%dP%dI%dS%dH%v", who, l, m.Params, len(m.Ifs), m.Switches, hs))
 		}
 		if t.HasType && !t.Interface {
 			if near(normal, 20) {
@@ -1213,12 +1303,24 @@ func classify(c Case, truths []fileTruth, want []finding, mode string) pbt.Verdi
 			if m.SameLine {
 				labels["two_accessors_on_one_line"] = true
 			}
+			if isGS(m.Kind) && m.Full {
+				labels["getter_or_setter_with_statements_in_body"] = true
+				if !f.Interface {
+					onlyGS := true
+					for _, o := range f.Methods {
+						onlyGS = onlyGS && isGS(o.Kind)
+					}
+					if onlyGS {
+						labels["data_class_whose_accessor_has_statements"] = true
+					}
+				}
+			}
 			for _, o := range f.Methods {
 				if o.Name == m.Name && (o.Params != m.Params || o.Kind != m.Kind) {
 					labels["overloaded_methods"] = true
 				}
 			}
-			if !isGS(m.Kind) && (strings.Contains(m.Name, "get") || strings.Contains(m.Name, "set")) {
+			if !isGS(m.Kind) && !accessorLike(m.Name) && (strings.Contains(m.Name, "get") || strings.Contains(m.Name, "set")) {
 				labels["ordinary_name_containing_get_or_set"] = true
 			}
 		}
@@ -1729,6 +1831,129 @@ func sweepFiles(sc SweepCase) []File {
 		f.Methods = []Method{trivialMethod("getter", "prop"), trivialMethod("normal", name), trivialMethod("setter", "prop")}
 		files = append(files, f)
 	}
+	if sc.Accessors {
+		files = append(files, accessorSweepFiles(sc, mk)...)
+	}
+	return files
+}
+
+// ifsMethod: a method with i top-level ifs, the first with a condition of height h, and s
+// top-level switches, padded so that its closing brace lies l lines below its declaration.
+func ifsMethod(m Method, l, i, s, h int, sc SweepCase) Method {
+	m.BraceNext = sc.BraceNext
+	for k := 0; k < i; k++ {
+		st := Stmt{Kind: "if", H: 1, Compact: true}
+		if k == 0 {
+			st = Stmt{Kind: "if", H: h, CloseOwn: sc.CloseOwn, Compact: true}
+		}
+		m.Body = append(m.Body, st)
+	}
+	for k := 0; k < s; k++ {
+		m.Body = append(m.Body, Stmt{Kind: "switch", Compact: true})
+	}
+	return padTo(m, l)
+}
+
+// accessorSweepFiles: the method-level thresholds on getters and setters (which stay getters
+// and setters for the class-level kinds) and on methods of other kinds whose names start like
+// an accessor's (in interfaces and next to an ordinary method, where the class-level findings
+// do not depend on what they are taken for).
+func accessorSweepFiles(sc SweepCase, mk func(string) File) []File {
+	var files []File
+	n := 0
+	add := func(name string, iface bool, ms ...Method) {
+		f := mk(name)
+		f.Dir = "a"
+		f.Interface = iface
+		f.Methods = ms
+		files = append(files, f)
+		n++
+	}
+	plain := trivialMethod("normal", "run")
+	// getters and setters with bodies: L x I x H, alone in the class (a data class), next to a
+	// plain accessor, or next to an ordinary method
+	for _, kind := range []string{"getter", "setter"} {
+		for _, l := range []int{30, 31} {
+			for _, i := range []int{7, 8} {
+				for _, h := range []int{3, 4} {
+					m := trivialMethod(kind, "kind")
+					m.Full = true
+					m = ifsMethod(m, l, i, 0, h, sc)
+					switch n % 3 {
+					case 0:
+						add(fmt.Sprintf("A%sx%dx%dx%d", kind, l, i, h), false, m)
+					case 1:
+						add(fmt.Sprintf("A%sx%dx%dx%d", kind, l, i, h), false, trivialMethod("setter", "other"), m)
+					default:
+						add(fmt.Sprintf("A%sx%dx%dx%d", kind, l, i, h), false, m, plain)
+					}
+				}
+			}
+		}
+		for _, sw := range []int{7, 8} {
+			m := trivialMethod(kind, "state")
+			m.Full = true
+			add(fmt.Sprintf("A%sS%d", kind, sw), false, ifsMethod(m, 31, 2, sw, 1, sc))
+		}
+	}
+	// names that start like an accessor's on methods of other kinds: P at the boundary ...
+	names := []string{"setBounds", "getKind", "settle", "getaway", "setup", "isReady", "get", "set"}
+	for k, name := range names {
+		for _, p := range []int{5, 6} {
+			m := Method{Kind: "normal", Name: name, Mods: "public", Params: p, BraceNext: sc.BraceNext, WrapParams: k % 3, Body: []Stmt{{Kind: "fill", N: 1}}}
+			if k%2 == 1 {
+				m.Ret = "int"
+			}
+			if k%4 == 2 {
+				m.Mods = "public static"
+			}
+			if (k+p)%2 == 0 {
+				add(fmt.Sprintf("B%sx%d", capital(name), p), false, plain, m)
+			} else {
+				add(fmt.Sprintf("B%sx%d", capital(name), p), false, m, trivialMethod("getter", "prop"), plain)
+			}
+			// ... and as an interface method without body
+			if k < 4 {
+				add(fmt.Sprintf("J%sx%d", capital(name), p), true, Method{Kind: "abstract", Name: name, Ret: m.Ret, Params: p, WrapParams: (k + 1) % 3})
+			}
+		}
+	}
+	// ... and I, S, H, L at the boundary
+	for k, name := range names[:6] {
+		for _, v := range [][4]int{{30, 7, 0, 3}, {31, 8, 0, 4}, {31, 2, 8, 1}} {
+			if v[2] > 0 && k > 1 {
+				continue
+			}
+			m := Method{Kind: "normal", Name: name, Mods: "public", Params: k % 2}
+			if k%2 == 1 {
+				m.Ret = "boolean"
+			}
+			add(fmt.Sprintf("C%sx%dx%dx%dx%d", capital(name), v[0], v[1], v[2], v[3]), false, ifsMethod(m, v[0], v[1], v[2], v[3], sc), plain)
+		}
+	}
+	if sc.InterfaceBodies {
+		for k, name := range []string{"getKind", "setBounds", "isReady"} {
+			for _, v := range [][3]int{{30, 7, 3}, {31, 8, 4}} {
+				m := Method{Kind: "default", Name: name, Mods: "default", Params: k}
+				if k != 1 {
+					m.Ret = "int"
+				}
+				add(fmt.Sprintf("D%sx%dx%dx%d", capital(name), v[0], v[1], v[2]), true, ifsMethod(m, v[0], v[1], 0, v[2], sc), Method{Kind: "abstract", Name: "other", Params: 1, Ret: "int"})
+			}
+		}
+	}
+	// 19 ordinary methods are the most a class may have next to one such method here; 18 + two
+	for _, ord := range []int{17, 18} {
+		var ms []Method
+		for k := 0; k < ord; k++ {
+			ms = append(ms, trivialMethod("normal", fmt.Sprintf("step%d", k)))
+		}
+		ms = append(ms, Method{Kind: "normal", Name: "setBounds", Mods: "public", Params: 6, Body: []Stmt{{Kind: "fill", N: 1}}})
+		if ord == 17 {
+			ms = append(ms, Method{Kind: "normal", Name: "getaway", Mods: "public", Params: 7, Body: []Stmt{{Kind: "fill", N: 1}}})
+		}
+		add(fmt.Sprintf("M%d", ord), false, ms...)
+	}
 	return files
 }
 
@@ -1769,6 +1994,11 @@ func checkSweep(sc SweepCase) pbt.Verdict {
 		vectors += end - start
 	}
 	pbt.Count("exhaustive_subspace_classes", vectors)
+	for _, f := range files {
+		if f.Dir == "a" {
+			pbt.Count("sweep_classes_with_thresholds_on_accessors_or_accessor_named_methods", 1)
+		}
+	}
 	pbt.Count("exhaustive_subspace_ignore_subsets_per_chunk", len(subsets))
 	v := pbt.Verdict{NonTrivial: true, Classes: []string{"sweep"}}
 	v.Canon = fmt.Sprintf("sweep|%+v", sc)
@@ -1921,6 +2151,12 @@ func genNormalMethod(t *rapid.T, name string, big bool) Method {
 		m.Body = []Stmt{{Kind: "fill", N: n}}
 		return m
 	}
+	return genBody(t, m)
+}
+
+// genBody fills the body of a method whose header is settled: top-level ifs and switches
+// around the thresholds, decoys, filler up to a drawn length.
+func genBody(t *rapid.T, m Method) Method {
 	nIf := aroundOr(t, "ifs", []int{6, 7, 8, 9}, 0, 11, 3)
 	nSw := aroundOr(t, "switches", []int{6, 7, 8, 9}, 0, 3, 1)
 	if rapid.IntRange(0, 2).Draw(t, "fewBranches") == 0 {
@@ -1986,7 +2222,37 @@ func genParamShape(t *rapid.T, m *Method) {
 	}
 }
 
-func genFile(t *rapid.T, idx int, used map[string]bool) File {
+// names that start like an accessor's, for methods of the other kinds: accessor spelling with
+// another signature (whatever parameter count is drawn), words that merely begin with get/set,
+// the bare prefixes, is-accessors
+var accessorLikeNames = []string{"setBounds", "getKind", "setRange", "getOrDefault", "settle", "getaway", "setup", "getting", "set", "get", "isReady", "isEmpty"}
+
+// genFullAccessor: a getter or setter whose body holds more than its own statement (checks,
+// lazy initialisation, notifications ...): ifs, switches and length around the thresholds.
+func genFullAccessor(t *rapid.T, kind, name string) Method {
+	m := trivialMethod(kind, name)
+	m.Full = true
+	m.Mods = rapid.SampledFrom([]string{"public", "public", "protected", "", "public final", "public synchronized", "@Override public"}).Draw(t, "accessorMods")
+	if kind == "getter" {
+		m.Ret = rapid.SampledFrom([]string{"int", "String", "boolean", "List<String>", "int[]"}).Draw(t, "accessorRet")
+	} else {
+		m.RichParams = rapid.IntRange(0, 4).Draw(t, "accessorRichParam") == 4
+	}
+	m.Throws = rapid.IntRange(0, 4).Draw(t, "throws") == 4
+	m.BraceNext = rapid.IntRange(0, 3).Draw(t, "braceNext") == 3
+	m.SplitHead = !m.BraceNext && rapid.IntRange(0, 4).Draw(t, "splitHead") == 4
+	if rapid.IntRange(0, 3).Draw(t, "hasDoc") == 3 {
+		m.Doc = rapid.IntRange(2, 4).Draw(t, "doc")
+	}
+	if rapid.IntRange(0, 3).Draw(t, "accessorFewLines") == 0 {
+		m.Body = []Stmt{{Kind: "fill", N: rapid.IntRange(1, 3).Draw(t, "accessorFill")}}
+		return m
+	}
+	return genBody(t, m)
+}
+
+// reserve = the number of ordinary methods the caller may still add to the class.
+func genFile(t *rapid.T, idx int, used map[string]bool, reserve int) File {
 	f := File{}
 	base := rapid.SampledFrom(classNames).Draw(t, "className")
 	f.Name = base
@@ -2037,7 +2303,8 @@ func genFile(t *rapid.T, idx int, used map[string]bool) File {
 	if !f.Interface && normal+gs > 0 && f.Fields < 2 {
 		f.Fields = 2 // n0 and names, which the bodies mention
 	}
-	bigBudget := 3 // methods with a generated body per class; the others stay small
+	bigBudget := 3  // methods with a generated body per class; the others stay small
+	fullBudget := 2 // getters/setters with a generated body per class
 	prevName, prevParams := "", 0
 	add := func(m Method, overload bool) {
 		if overload && m.Params == prevParams {
@@ -2046,8 +2313,20 @@ func genFile(t *rapid.T, idx int, used map[string]bool) File {
 		prevName, prevParams = m.Name, m.Params
 		f.Methods = append(f.Methods, m)
 	}
+	// A method of an ordinary kind may be named like an accessor where no class-level finding
+	// depends on what it is taken for: in an interface, and in a class that keeps one method of
+	// an ordinary name (the first) and has fewer than 20 methods that are no getters/setters.
+	likeOK := f.Interface || normal+reserve < 20
+	taken := map[string]bool{}
 	for k := 0; k < normal; k++ {
 		name := fmt.Sprintf("%s%d", methodNames[(k+idx)%len(methodNames)], k)
+		if likeOK && (k > 0 || f.Interface) && rapid.IntRange(0, 4).Draw(t, "accessorLikeName") == 4 {
+			name = fmt.Sprintf("%s%d", rapid.SampledFrom(accessorLikeNames).Draw(t, "accessorLike"), k)
+			if bare := strings.TrimSuffix(name, strconv.Itoa(k)); !taken[bare] && rapid.Bool().Draw(t, "accessorLikeBare") {
+				name = bare // `set`, `getKind`: without the number that keeps the other names apart
+			}
+			taken[name] = true
+		}
 		overload := k > 0 && rapid.IntRange(0, 5).Draw(t, "overload") == 5
 		if overload {
 			name = prevName // the name of the method before, with another parameter list
@@ -2082,6 +2361,9 @@ func genFile(t *rapid.T, idx int, used map[string]bool) File {
 		m := trivialMethod(kind, fmt.Sprintf("value%d", k))
 		if f.Interface {
 			m = Method{Kind: "abstract", Name: m.Name, Ret: m.Ret, Params: m.Params}
+		} else if fullBudget > 0 && rapid.IntRange(0, 3).Draw(t, "fullAccessor") == 3 {
+			fullBudget--
+			m = genFullAccessor(t, kind, fmt.Sprintf("value%d", k))
 		} else {
 			m.OneLine = rapid.IntRange(0, 2).Draw(t, "oneLine") == 2
 		}
@@ -2139,7 +2421,7 @@ func genCase(t *rapid.T) Case {
 	n := rapid.IntRange(1, 4).Draw(t, "files")
 	used := map[string]bool{}
 	for i := 0; i < n; i++ {
-		c.Files = append(c.Files, genFile(t, i, used))
+		c.Files = append(c.Files, genFile(t, i, used, 0))
 	}
 	if rapid.IntRange(0, 9).Draw(t, "packageInfo") == 9 {
 		c.Files = append(c.Files, File{Name: "package-info", Dir: c.Files[0].Dir, Package: "com.acme.info", Header: 1})
@@ -2156,7 +2438,7 @@ func genSortCase(t *rapid.T) Case {
 	n := rapid.IntRange(1, 3).Draw(t, "files")
 	used := map[string]bool{}
 	for i := 0; i < n; i++ {
-		f := genFile(t, i, used)
+		f := genFile(t, i, used, 3)
 		if !f.Interface && rapid.IntRange(0, 2).Draw(t, "addLong") > 0 {
 			k := rapid.IntRange(1, 3).Draw(t, "longMethods")
 			for j := 0; j < k; j++ {
@@ -2226,14 +2508,16 @@ func genSweep(t *rapid.T) SweepCase {
 		Shapes:          true,
 		Varargs:         !pbt.Excluded(varargsFeature),
 		InterfaceBodies: !pbt.Excluded(interfaceBodyFeature),
+		Accessors:       true,
 	}
 }
 
 func init() {
 	pbt.SetProperty("C10")
-	pbt.Describe("Conventional Java classes/interfaces printed from a parameter vector by a line-tracking printer: per method the distance L between declaration line and closing brace, parameter count P, top-level if count I and classic switch count S (with nested ifs/switches, else-if chains written over several lines or on one line, ifs/switches inside for/while/do/try/synchronized/lambda bodies, multi-line loop conditions, explicitly typed lambda parameters, block comments and long initialiser blocks full of ifs as decoys that must not count), heights H of top-level if conditions; per class M ordinary methods (some named generate/select/send/serve, some containing get/set inside the name: reset, forget, target, offset, or the usual companions toString/hashCode) and G getters/setters; parameter lists on one line or wrapped over several lines, with annotated / nested-generic parameter types, optionally ending in a variable-arity parameter; modifiers/return type on a line of their own; ordinary methods with an empty body on one line; default and static interface methods with bodies; class headers public / package-private / final / annotated / generic; LF or CRLF line ends; 1-4 files per tree (the same class name may recur in another directory; directory and class names containing test/Test that are no test files), optionally a package-info.java, x ignore lists (subsets of the seven kinds, a kind named twice, names that are no kind: unknown ones, another spelling, parts of kind names such as Class/long/Method) x sort on/off. Sub-check sweep (bounded-exhaustive, one evaluation): quick tier L{29..32} x P{4..7} x I{6..9} x H{2..5} without switches (256 one-method classes) + I{6..9} x S{6..9} on the diagonal of (L,P,H) (64); thorough tier the whole product L x P x I x S{0,6..9} x H (1280); both + M{0,1,18..21} x G{0,1,3} x class/interface (36) + interface P{4..7} + boundary shapes: P{4..7} x varargs x wrap style{0,1,2} x L{30,31} (48) and as interface methods (8), default methods L{30,31} x I{7,8} x H{3,4} (8), M{19,20} x G{0,2} with look-alike names (4), accessor pairs plus one look-alike method (8), overloads at M{19,20} (2), two or three accessors on one line with M{0,20} (4); every chunk of 64 files is judged under all 128 ignore subsets, each with SortSmellByType, and finally once more without ignore list on the same analysis. Sub-checks vec (API: BadSmellApp.AnalysisPath + IdentifyBadSmell(nil), IdentifyBadSmell(ignore), IdentifyBadSmell(nil) again on the same analysis + SortSmellByType) and cli (`coca bs [-p DIR] [-x kinds] [-s type]`, bs.json; DIR absolute, relative, ./DIR, DIR/ or the default . from inside; flags spelt -x v, -x=v, --ignore v, --ignore=v; biased to groups whose sizes ascend in report order, also across a change in the number of digits) draw random vectors biased to the thresholds. Oracle: findings of the seven kinds computed from the printer's line record (kind, file, line for method-level kinds, size for sized kinds); other kinds are ignored. Non-trivial = some parameter at threshold-1/threshold/threshold+1 (L 29-31, P 4-6, M 19-21, I/S 7-9, H 3-5, or a class with 0/1 methods); distinct = the vector with ignore list, sort flag and entry point.",
+	pbt.Describe("Conventional Java classes/interfaces printed from a parameter vector by a line-tracking printer: per method the distance L between declaration line and closing brace, parameter count P, top-level if count I and classic switch count S (with nested ifs/switches, else-if chains written over several lines or on one line, ifs/switches inside for/while/do/try/synchronized/lambda bodies, multi-line loop conditions, explicitly typed lambda parameters, block comments and long initialiser blocks full of ifs as decoys that must not count), heights H of top-level if conditions; per class M ordinary methods (some named generate/select/send/serve, some containing get/set inside the name: reset, forget, target, offset, or the usual companions toString/hashCode) and G getters/setters (getX() returning a value, setX(v); written on one line, on three, or with a body of their own: ifs, switches, tall conditions and lengths around the thresholds like any other method), and methods of the other kinds (ordinary, static, abstract, default) whose names start like an accessor's without being one by signature or spelling (setBounds/getKind/setRange/getOrDefault with any parameter count, settle, getaway, setup, getting, bare get/set, isReady/isEmpty), all with bodies and parameter lists around the method-level thresholds; parameter lists on one line or wrapped over several lines, with annotated / nested-generic parameter types, optionally ending in a variable-arity parameter; modifiers/return type on a line of their own; ordinary methods with an empty body on one line; default and static interface methods with bodies; class headers public / package-private / final / annotated / generic; LF or CRLF line ends; 1-4 files per tree (the same class name may recur in another directory; directory and class names containing test/Test that are no test files), optionally a package-info.java, x ignore lists (subsets of the seven kinds, a kind named twice, names that are no kind: unknown ones, another spelling, parts of kind names such as Class/long/Method) x sort on/off. Sub-check sweep (bounded-exhaustive, one evaluation): quick tier L{29..32} x P{4..7} x I{6..9} x H{2..5} without switches (256 one-method classes) + I{6..9} x S{6..9} on the diagonal of (L,P,H) (64); thorough tier the whole product L x P x I x S{0,6..9} x H (1280); both + M{0,1,18..21} x G{0,1,3} x class/interface (36) + interface P{4..7} + boundary shapes: P{4..7} x varargs x wrap style{0,1,2} x L{30,31} (48) and as interface methods (8), default methods L{30,31} x I{7,8} x H{3,4} (8), M{19,20} x G{0,2} with look-alike names (4), accessor pairs plus one look-alike method (8), overloads at M{19,20} (2), two or three accessors on one line with M{0,20} (4), getters and setters with bodies L{30,31} x I{7,8} x H{3,4} alone / next to an accessor / next to an ordinary method (16) and with S{7,8} (4), accessor-named methods of other kinds P{5,6} x 8 names in classes (16) and as interface methods (8), with (L,I,S,H) at (30,7,0,3), (31,8,0,4), (31,2,8,1) (14), as default methods (6), next to 17/18 ordinary methods (2); every chunk of 64 files is judged under all 128 ignore subsets, each with SortSmellByType, and finally once more without ignore list on the same analysis. Sub-checks vec (API: BadSmellApp.AnalysisPath + IdentifyBadSmell(nil), IdentifyBadSmell(ignore), IdentifyBadSmell(nil) again on the same analysis + SortSmellByType) and cli (`coca bs [-p DIR] [-x kinds] [-s type]`, bs.json; DIR absolute, relative, ./DIR, DIR/ or the default . from inside; flags spelt -x v, -x=v, --ignore v, --ignore=v; biased to groups whose sizes ascend in report order, also across a change in the number of digits) draw random vectors biased to the thresholds. Oracle: findings of the seven kinds computed from the printer's line record (kind, file, line for method-level kinds, size for sized kinds); other kinds are ignored. Non-trivial = some parameter at threshold-1/threshold/threshold+1 (L 29-31, P 4-6, M 19-21, I/S 7-9, H 3-5, or a class with 0/1 methods); distinct = the vector with ignore list, sort flag and entry point.",
 		"the line a declaration starts on is the line of its modifiers and return type: no annotations on lines of their own above a method; one top-level type per file; no nested, local or anonymous types; constructors only where they cannot affect a method count near a threshold",
-		"getters/setters are conventional (getX() / setX(v), short bodies); ordinary method names do not start with get/set (is-accessors are not generated: the statement does not say whether they are getters)",
+		"getters/setters are getX() returning a value and setX(v) with one parameter, whatever their bodies hold (a setter that validates with eight ifs is still a setter for largeClass/dataClass, and a method like any other for the four method-level kinds, which the statement gives for methods without exception)",
+		"the statement does not say whether a method that is no such accessor but whose name starts with get/set/is (setBounds with six parameters, getKind(int), settle, getaway, isReady) is a getter/setter: such methods are generated only in interfaces and in classes that also have at least one method of an ordinary name and, counting them, fewer than 20 methods that are not getters/setters, so that largeClass, dataClass and lazyElement come out the same under both readings (the expected-value computation refuses any other placement); their method-level findings are asserted in full",
 		"else-if branches, ifs inside any nested block and loop conditions do not count as top-level ifs (DESIGN C10)",
 		"graphConnectedCall findings (third-party state leak, DESIGN section 6 row 22) are left out of every comparison",
 		"a file without any type (package-info.java) must produce no finding of the seven kinds",
